@@ -117,6 +117,10 @@ class Check:
             o = _conc.GLOBAL_OOB[0]
             rid = sorted(self.rules)[0] if self.rules else "R-%s-0" % self.pid
             self.fail(rid, "out-of-range:%s" % str(o[0]).split("#")[0], o[3], "access %s[%s] of an array of length %s at %s while interpreting the code this check covers (%d such accesses)" % (o[0], o[1], o[2], o[3], len(_conc.GLOBAL_OOB)))
+        if _conc.GLOBAL_UNINIT and not self.broken and not self.viol:
+            o = _conc.GLOBAL_UNINIT[0]
+            rid = sorted(self.rules)[0] if self.rules else "R-%s-0" % self.pid
+            self.fail(rid, "indeterminate-read:%s" % str(o[0]).split("#")[0], o[2], "%s[%s] is read at %s although nothing has written it (%d such reads while interpreting the code this check covers): the result depends on indeterminate memory" % (o[0], o[1], o[2], len(_conc.GLOBAL_UNINIT)))
         from . import interp as _interp
         if _interp.COVER:
             one = sorted(k for k, v in _interp.COVER.items() if len(v) == 1)
@@ -225,18 +229,53 @@ def run(main, pid):
     ap = argparse.ArgumentParser()
     ap.add_argument("--tier", default=os.environ.get("VERIF_TIER", "quick"))
     a = ap.parse_args(sys.argv[2:] if len(sys.argv) > 1 and not sys.argv[1].startswith("-") else sys.argv[1:])
+    def memory_verdict(why):
+        """the interpretation stopped, but before it did the interpreted code accessed an array out of range or read an
+        element nothing had written: that is a definite finding about /repo's code, not a limit of the analysis"""
+        from . import conc as _conc
+        ev = [("out-of-range access %s[%s] of an array of length %s" % tuple(o[:3]), o[3]) for o in _conc.GLOBAL_OOB] + \
+             [("read of %s[%s], which nothing has written" % tuple(o[:2]), o[2]) for o in _conc.GLOBAL_UNINIT]
+        if not ev:
+            return None
+        ck = Check(pid, a.tier, level="other", technique="abstract interpretation (memory events)")
+        ck.rule("R-%s-memory" % pid, "no out-of-range access and no read of indeterminate memory in the interpreted code", floor=0)
+        ck.fail("R-%s-memory" % pid, "memory:%s" % ev[0][0].split("[")[0].split(" ")[-1].split("#")[0], ev[0][1],
+                "%s at %s (%d such events); the interpretation then stopped with: %s" % (ev[0][0], ev[0][1], len(ev), why))
+        # keep the evidence file of the last complete run: this partial run only reports the violation
+        ck.write_evidence = False
+        return ck
+
     try:
         rc = main(a.tier)
     except ir.AnalysisBroken as e:
-        print("ANALYSIS-BROKEN property=%s %s" % (pid, e))
-        rc = 2
-    except Exception:
-        traceback.print_exc()
+        ck = memory_verdict(str(e)[:300])
+        if ck is not None:
+            rc = ck.finish("partial run: the interpreted code left the modelled memory before the analysis stopped")
+        else:
+            print("ANALYSIS-BROKEN property=%s %s" % (pid, e))
+            rc = 2
+    except Exception as e:
+        ck = None
         try:
-            print("ANALYSIS-BROKEN property=%s checker crashed (see traceback)" % pid)
-        except BrokenPipeError:
-            pass
-        rc = 2
+            ck = memory_verdict("%s: %s" % (type(e).__name__, str(e)[:200]))
+            from .interp import ThrowEx as _ThrowEx
+            if ck is None and isinstance(e, _ThrowEx):
+                # the interpreted library code itself throws on an input the check hands it as admissible
+                ck = Check(pid, a.tier, level="other", technique="abstract interpretation (uncaught exception of the interpreted code)")
+                ck.rule("R-%s-throws" % pid, "the interpreted library code does not throw on the admissible grids and options of this check", floor=0)
+                ck.fail("R-%s-throws" % pid, "throws:%s" % str(getattr(e, "what", e))[:40], str(getattr(e, "site", "?")),
+                        "the library code throws %s at %s while the check interprets it on an admissible input" % (getattr(e, "what", e), getattr(e, "site", "?")))
+        except Exception:
+            ck = None
+        if ck is not None:
+            rc = ck.finish("partial run: the interpreted code left the modelled memory before the analysis stopped")
+        else:
+            traceback.print_exc()
+            try:
+                print("ANALYSIS-BROKEN property=%s checker crashed (see traceback)" % pid)
+            except BrokenPipeError:
+                pass
+            rc = 2
     try:
         sys.stdout.flush()
     except BrokenPipeError:
